@@ -56,14 +56,16 @@ def plan(tier):
             for tag in tags:
                 sname = 'vp_%s_%s_%s' % (tag, oi.op, oi.tag)
                 src[cfg].append(shim(C06._ret_short(oi), sname, oi.params(), C06.tagged_call(oi, tag)))
-                heavy = oi.op in ('multiply', 'divide') and max(t.bits for t in oi.ts) >= 64
+                heavy = oi.op in ('multiply', 'divide') and max(t.bits for t in oi.ts) >= 32
+                if heavy and oi.op == 'multiply' and cfg.startswith('clang') and not thorough:
+                    continue      # portable multiply predicate vs the final mul nsw at >= 32 bits: minutes of kissat, thorough tier only
                 jobs.append(Job('%s.%s.%s.%s.%s' % (PROP, cfg, oi.op, tag, oi.tag), 'C07_' + cfg,
                                 C06.custop_pattern(oi, tag),
                                 Contract(requires=oi.requires(C06.ptr_args(oi)), ensures=[], assigns=[],
                                          note='total: defined for every operand except zero divisor / negative shift count'),
                                 defines=ALLOW, shim=sname, shim_types=oi.types, oracle=total_oracle(oi), prop=PROP,
                                 solvers=('minisat',) if not heavy else ('cadical', 'kissat'),
-                                timeout=120 if not heavy else 600, layer=1))
+                                timeout=120 if not heavy else 2400, layer=1))
                 n += 1
     kernels = [Kernel('C07_' + c, ''.join(src[c]), f, c) for c, f in cfgs.items()]
     meta = {'instantiations': n,
